@@ -455,13 +455,13 @@ type TimeOnly struct {
 // main goroutine before the workers start).
 type c12Env struct {
 	types    []*TypeDesc
-	codecs   []avro.Codec       // shared codec per type
-	values   [][]reflect.Value  // shared values per type
-	payloads [][][]byte         // per type: own encoding of each value
-	files    [][]byte           // prebuilt container files (one per type)
-	ftypes   []reflect.Type     // target type per file
-	chunks   []ChunkSpec        // per goroutine
-	timeC    avro.Codec         // shared codec for TimeOnly
+	codecs   []avro.Codec      // shared codec per type
+	values   [][]reflect.Value // shared values per type
+	payloads [][][]byte        // per type: own encoding of each value
+	files    [][]byte          // prebuilt container files (one per type)
+	ftypes   []reflect.Type    // target type per file
+	chunks   []ChunkSpec       // per goroutine
+	timeC    avro.Codec        // shared codec for TimeOnly
 	chans    []chan *avro.ResourceBank
 	ng       int
 }
